@@ -496,3 +496,114 @@ def c19_hash_order_sensitive_use(F, rep):
                           "%s: `%s` is filled while iterating the hash-ordered `%s` and then used position-wise (%s): which element that is differs between interpreter instances, so the same program computes different values" % (
                               it["name"], v, field, sorted(set(uses))), "%s (%s)" % (it["name"], crate), sample={"fn": it["name"], "sequence": v, "from": field})
     rep.floor("C19-R6", "sequences collected from hash-ordered fields", n_taint, 1)
+
+
+# ---------------------------------------------------------------- C04-R6 / C05-R8
+def assign_compiler_operand_roles(F, rep, rule):
+    rep.rule(rule, "assignment compilers hand (sink, source) to their dispatcher in that order in every arm, including the MutableReference fallback arms "
+                   "(a swapped pair writes INTO the right-hand variable and leaves the target unchanged)")
+    n = 0
+    for crate in ("mech_interpreter.lib", "mech_math.lib"):
+        for it in F.syn(crate):
+            if not (it["k"] == "method" and it["name"] == "compile" and it["trait"] and last_seg(it["trait"]) == "NativeFunctionCompiler" and it.get("body")):
+                continue
+            role = {}
+            for st in find(it["body"], "let"):
+                if len(st) == 4 and st[2] is not None:
+                    pat = st[1][1] if st[1][0] == "ptype" else st[1]
+                    if pat[0] != "pident":
+                        continue
+                    txt = re.sub(r"\s", "", render(st[2]))
+                    m = re.match(r"^arguments\[(\d)\]", txt)
+                    if m and pat[1] in ("sink", "source"):
+                        role[pat[1]] = "sink" if m.group(1) == "0" else ("source" if m.group(1) == "1" else None)
+            if role.get("sink") != "sink" or role.get("source") != "source":
+                continue
+            # names bound from exactly one of the two roles (`if let Value::MutableReference(sink_ref) = &sink`, `let s = sink.clone()`) inherit it
+            for _ in range(3):
+                for node in list(find(it["body"], "letc")) + [l for l in find(it["body"], "let") if len(l) == 4 and l[2] is not None]:
+                    rs = {role[x[1]] for x in find(node[2], "path") if x[1] in role and role[x[1]]}
+                    if len(rs) == 1:
+                        for b in find(node[1], "pident"):
+                            role.setdefault(b[1], next(iter(rs)))
+                for mnode in find(it["body"], "match"):
+                    if is_node(mnode[1]) and mnode[1][0] != "tuple":
+                        rs = {role[x[1]] for x in find(mnode[1], "path") if x[1] in role and role[x[1]]}
+                        if len(rs) == 1:
+                            for a in mnode[2]:
+                                for b in find(a[0], "pident"):
+                                    if not b[1][:1].isupper():
+                                        role.setdefault(b[1], next(iter(rs)))
+            owner = X_type_head(it["self"])
+
+            def roles_of(e, env):
+                return {env[x[1]] for x in find(e, "path") if x[1] in env and env[x[1]]}
+
+            def check_calls(node, env):
+                nonlocal n
+                for c in find(node, "call"):
+                    p = path_of(c[1]) or ""
+                    if not re.search(r"impl_\w+_fxn$", p) or len(c[2]) < 2:
+                        continue
+                    n += 1
+                    r0, r1 = roles_of(c[2][0], env), roles_of(c[2][1], env)
+                    ok = r0 == {"sink"} and r1 == {"source"}
+                    rep.check(ok, rule, "%s:%s#%d" % (owner, p.split("::")[-1], n),
+                              "%s::compile calls `%s` with (%s, %s) in the (sink, source) positions: the assignment writes into the wrong operand" % (
+                                  owner, render(c)[:90], "/".join(sorted(r0)) or "?", "/".join(sorted(r1)) or "?"), "%s (%s)" % (owner, crate),
+                              sample={"compiler": owner, "call": render(c)[:100]})
+
+            def walk_arms(node, env):
+                # calls outside any role-tuple match
+                handled = []
+                for m in find(node, "match"):
+                    sc = m[1]
+                    if is_node(sc) and sc[0] == "tuple":
+                        comp_roles = []
+                        for comp in sc[1]:
+                            rs = roles_of(comp, env)
+                            comp_roles.append(next(iter(rs)) if len(rs) == 1 else None)
+                        if any(comp_roles):
+                            handled.append(m)
+                            for a in m[2]:
+                                env2 = dict(env)
+                                alts = a[0][1] if a[0][0] == "por" else [a[0]]
+                                for alt in alts:
+                                    if alt[0] == "ptuple" and len(alt[1]) == len(comp_roles):
+                                        for comp, r in zip(alt[1], comp_roles):
+                                            for b in find(comp, "pident"):
+                                                env2[b[1]] = r
+                                check_calls(a[2], env2)
+                inside = set()
+                for m in handled:
+                    for x in walk(m):
+                        inside.add(id(x))
+                for c in find(node, "call"):
+                    if id(c) in inside:
+                        continue
+                    check_calls(["expr", c, False] if False else c, env) if False else None
+                # top-level calls (not in a handled match)
+                for c in find(node, "call"):
+                    if id(c) in inside:
+                        continue
+                    p = path_of(c[1]) or ""
+                    if re.search(r"impl_\w+_fxn$", p) and len(c[2]) >= 2:
+                        nonlocal_n_check(c, env)
+
+            def nonlocal_n_check(c, env):
+                nonlocal n
+                p = path_of(c[1]) or ""
+                n += 1
+                r0, r1 = roles_of(c[2][0], env), roles_of(c[2][1], env)
+                ok = r0 == {"sink"} and r1 == {"source"}
+                rep.check(ok, rule, "%s:%s#%d" % (owner, p.split("::")[-1], n),
+                          "%s::compile calls `%s` with (%s, %s) in the (sink, source) positions: the assignment writes into the wrong operand" % (
+                              owner, render(c)[:90], "/".join(sorted(r0)) or "?", "/".join(sorted(r1)) or "?"), "%s (%s)" % (owner, crate),
+                          sample={"compiler": owner, "call": render(c)[:100]})
+            walk_arms(it["body"], dict(role))
+    rep.floor(rule, "dispatcher calls in assignment compilers", n, 20)
+
+
+def X_type_head(t):
+    from lib import fxn as _X
+    return _X.type_head(t)
